@@ -389,7 +389,7 @@ def _s(v):
     if v is None:
         return None
     try:
-        return str(v)
+        return ''.join(str(v))      # an exact str (DOM Text is a str subclass that drags its document along)
     except Exception as e:
         return 'UNRENDERABLE:%s' % type(e).__name__
 
